@@ -89,6 +89,20 @@ def replay(mod, path: str) -> int:
     return 0
 
 
+def _render_samples(mod, samples) -> list:
+    """Human-readable view of the sampled cases (module hook `sample_view`), best effort."""
+    view = getattr(mod, "sample_view", None)
+    out = []
+    if view is None:
+        return out
+    for c in samples:
+        try:
+            out.append(str(view(c))[:3000])
+        except Exception as e:  # noqa: BLE001
+            out.append(f"<not renderable: {type(e).__name__}>")
+    return out
+
+
 _WIT: dict = {}
 
 
@@ -238,6 +252,7 @@ def run_property(mod, tier: str, seed: int, t0: float, only_part=None) -> int:
             "distinct_nontrivial": len(total.nontrivial),
             "rule": mod.RULE,
             "samples": total.samples[:6],
+            "samples_rendered": _render_samples(mod, total.samples[:6]),
             "exhaustive": bool(exhaustive_parts) and len(exhaustive_parts) == len(all_parts),
             "exhaustive_parts": exhaustive_parts,
             "parts": part_summ,
